@@ -114,9 +114,10 @@ WideRefW(kind, c, iv, iw, ow, WW) ==
     [] kind = "SignedMin2" -> <<O(IF CmpS(S(1), S(2), WW) <= 0 THEN S(1) ELSE S(2))>>
     [] kind = "FixedPointMult" ->
           \* exact product of the signed values (width of both operands together), floor-rescaled to the result format
-          LET PW == iw[1] + iw[2] + 2
+          LET sh == c.af[3] + c.bf[3] - c.rf[3]
+              PW == Max(iw[1] + iw[2] + 2, ow[1] + sh + 1)        \* wide enough for the sign to reach every result bit
               p == Mul(Ext(Norm(iv[1], iw[1]), iw[1], PW, TRUE), Ext(Norm(iv[2], iw[2]), iw[2], PW, TRUE), PW)
-          IN  <<O(Sar2(p, c.af[3] + c.bf[3] - c.rf[3], PW))>>
+          IN  <<O(Sar2(p, sh, PW))>>
     [] kind = "FixedPointComparator" ->
           \* constrained only when the difference is representable in the operand format (Library!CombRef)
           LET d == Sub(S(1), S(2), WW)
